@@ -1,6 +1,7 @@
 package main
 
 import (
+	"sort"
 	"fmt"
 	"go/ast"
 	"go/types"
@@ -610,6 +611,102 @@ type provInfo struct {
 	owner ssa.Value
 }
 
+// funcVarKey resolves the contract a function-typed variable (parameter, captured variable, named local) of unit g obeys:
+// by the name given in a `funcvar` directive of g's contract, and -- so that a consistent renaming of such a variable
+// does not invalidate the contract -- otherwise by type: a directive whose name matches no variable of g is taken to
+// speak about the one function-typed parameter / captured variable of g that no directive names and whose signature fits
+// the named contract (for passthrough/callback: the only one left).
+func (x *Exec) funcVarKey(g *ssa.Function, con *Contract, name string) string {
+	if con == nil || con.FuncVars == nil {
+		return ""
+	}
+	if k := con.FuncVars[name]; k != "" {
+		return k
+	}
+	if g == nil {
+		return ""
+	}
+	type cand struct {
+		name string
+		sig  *types.Signature
+	}
+	var actual []cand
+	seen := map[string]bool{}
+	add := func(n string, t types.Type) {
+		if p, ok := t.(*types.Pointer); ok {
+			t = p.Elem()
+		}
+		sg, ok := t.Underlying().(*types.Signature)
+		if !ok || seen[n] {
+			return
+		}
+		seen[n] = true
+		if _, named := con.FuncVars[n]; !named {
+			actual = append(actual, cand{n, sg})
+		}
+	}
+	for _, p := range g.Params {
+		add(p.Name(), p.Type())
+	}
+	for _, fv := range g.FreeVars {
+		add(fv.Name(), fv.Type())
+	}
+	var dangling []string
+	for d := range con.FuncVars {
+		if !seen[d] {
+			dangling = append(dangling, d)
+		}
+	}
+	sort.Strings(dangling)
+	fits := func(d string, c cand) bool {
+		k := con.FuncVars[d]
+		if k == "passthrough" || k == "callback" {
+			return true
+		}
+		sf := x.w.Funcs[k]
+		if sf == nil {
+			return false
+		}
+		want := sf.Signature
+		if want.Params().Len() != c.sig.Params().Len() || want.Results().Len() != c.sig.Results().Len() {
+			return false
+		}
+		for i := 0; i < want.Params().Len(); i++ {
+			if !types.Identical(want.Params().At(i).Type(), c.sig.Params().At(i).Type()) {
+				return false
+			}
+		}
+		for i := 0; i < want.Results().Len(); i++ {
+			if !types.Identical(want.Results().At(i).Type(), c.sig.Results().At(i).Type()) {
+				return false
+			}
+		}
+		return true
+	}
+	// a directive is re-bound only if exactly one unnamed variable fits it and that variable fits no other dangling directive
+	for _, d := range dangling {
+		var m []cand
+		for _, c := range actual {
+			if fits(d, c) {
+				m = append(m, c)
+			}
+		}
+		if len(m) != 1 || m[0].name != name {
+			continue
+		}
+		other := false
+		for _, d2 := range dangling {
+			if d2 != d && fits(d2, m[0]) {
+				other = true
+			}
+		}
+		if !other {
+			return con.FuncVars[d]
+		}
+	}
+	return ""
+}
+
 func (x *Exec) provenance(f *ssa.Function, v ssa.Value, depth int) string {
 	return x.prov(f, v, depth).key
 }
@@ -625,9 +722,10 @@ func (x *Exec) prov(f *ssa.Function, v ssa.Value, depth int) provInfo {
 		return provInfo{key: key}
 	}
 	unitCon := x.w.Contracts[fnKey(x.w.pkgOfFn(f), f)]
-	for g := f; (unitCon == nil || unitCon.FuncVars == nil) && g.Parent() != nil; {
-		g = g.Parent()
-		unitCon = x.w.Contracts[fnKey(x.w.pkgOfFn(g), g)]
+	unitFn := f
+	for (unitCon == nil || unitCon.FuncVars == nil) && unitFn.Parent() != nil {
+		unitFn = unitFn.Parent()
+		unitCon = x.w.Contracts[fnKey(x.w.pkgOfFn(unitFn), unitFn)]
 	}
 	slot := func(name string, fa *ssa.FieldAddr) provInfo {
 		if si, ok := fieldSlots[name]; ok {
@@ -646,11 +744,11 @@ func (x *Exec) prov(f *ssa.Function, v ssa.Value, depth int) provInfo {
 		return resolve(fnKey(x.w.pkgOfFn(fn), fn))
 	case *ssa.Parameter:
 		if unitCon != nil {
-			return provInfo{key: unitCon.FuncVars[v.Name()]}
+			return provInfo{key: x.funcVarKey(unitFn, unitCon, v.Name())}
 		}
 	case *ssa.FreeVar:
 		if unitCon != nil {
-			return provInfo{key: unitCon.FuncVars[v.Name()]}
+			return provInfo{key: x.funcVarKey(unitFn, unitCon, v.Name())}
 		}
 	case *ssa.ChangeType:
 		return x.prov(f, v.X, depth+1)
@@ -668,7 +766,7 @@ func (x *Exec) prov(f *ssa.Function, v ssa.Value, depth int) provInfo {
 			return slot(fieldName(a), a)
 		case *ssa.FreeVar:
 			if unitCon != nil {
-				return provInfo{key: unitCon.FuncVars[a.Name()]}
+				return provInfo{key: x.funcVarKey(unitFn, unitCon, a.Name())}
 			}
 		case *ssa.Alloc:
 			// a local variable: every store into it must agree
